@@ -309,6 +309,8 @@ class _SymFloatMeta(type):
             return x
         if isinstance(x, SymBool):
             return x._num()
+        if isinstance(x, _np.ndarray) and x.dtype == object and x.size == 1:
+            return cls(x.reshape(-1)[0])
         return builtins.float(x)
 
     def __instancecheck__(cls, x):
